@@ -189,6 +189,8 @@ func c19Run(c *vf.Ctx, h *c19History) string {
 		return "panic"
 	}
 	if aerr != nil {
+		// every history enumerated here is a valid use of the builder API (no kind asks for a rejected combination)
+		c.Fail("builder error: "+aerr.Error(), "adding tracks and setting codec descriptors with valid arguments succeeds", det(aerr.Error()))
 		return "builder-error: " + aerr.Error()
 	}
 	n := len(h.Ops)
@@ -302,6 +304,14 @@ func c19Run(c *vf.Ctx, h *c19History) string {
 						got := e.HvcC.GetNalusForType(typ)
 						if len(got) != 1 || !bytes.Equal(got[0], want) {
 							return fail("hvcC parameter sets "+where, "parameter sets carried verbatim", fmt.Sprintf("track %d type %d", i, typ))
+						}
+					}
+				}
+				if op.Kind == 3 {
+					// hvc1: all parameter sets are in the sample entry, so every array is flagged complete (ISO/IEC 14496-15 8.3.3.1)
+					for ai := range e.HvcC.NaluArrays {
+						if e.HvcC.NaluArrays[ai].Complete() != 1 {
+							return fail("hvcC array_completeness "+where, "hvc1 carries complete parameter-set arrays", fmt.Sprintf("track %d array %d", i, ai))
 						}
 					}
 				}
